@@ -389,3 +389,16 @@ Proof.
   destruct Ex as [H | H]; [exact H|].
   rewrite (unretried_fetch_never_served evs P i j H) in Hc. discriminate.
 Qed.
+
+(* periodic heartbeats: if the neighbour's Sync Interests are sent every `period` and arrive with a latency variation
+   of at most `jitter`, then at any moment the last one heard is at most period + jitter old; if that is within the
+   dead interval, NO sweep — whenever it runs, however often — removes the neighbour *)
+Theorem heartbeats_survive_every_sweep : forall P i j period jitter dead ri,
+  net_ok (base P) -> getr (base P) i = Some ri -> In j (nbrs ri) ->
+  period + jitter <= dead ->
+  now P <= pget (i, j) (seen P) + period + jitter ->        (* the next heartbeat is not overdue *)
+  In j (nbrs_of (base (fst (pstep P (PSweep i dead)))) i).
+Proof.
+  intros P i j period jitter dead ri Hok Gi Hj Hpj Hnow.
+  apply (live_neighbour_survives_sweep P i j dead ri Hok Gi Hj). lia.
+Qed.
